@@ -163,15 +163,19 @@ def case(ctx, i):
 
 
 def suppression_for(expects, rng):
-    """One section per mutation (each kept with probability 0.7) naming the interface or type it touched."""
+    """One section per mutation (each kept with probability 0.7) naming the interface or type it touched, by name, symbol name
+    or a regular expression over all the names involved (a function whose symbol has aliases is matched by symbol_name only when
+    every alias matches, hence the alternation)."""
     out = []
     for e in expects:
         if rng.random() > 0.7:
             continue
         names = (e.removed or e.added or e.affected)
         if (e.removed or e.added) and names:
-            isvar = "variable" in e.kind
-            out.append("[suppress_%s]\n  symbol_name = %s\n" % ("variable" if isvar else "function", names[0]))
+            sect = "variable" if "variable" in e.kind else "function"
+            how = rng.choice(["symbol_name", "name", "name_regexp", "symbol_name_regexp"])
+            val = names[0] if not how.endswith("regexp") else "^(%s)$" % "|".join(names)
+            out.append("[suppress_%s]\n  %s = %s\n" % (sect, how, val))
         elif e.type_name and ":" in e.type_name:
             out.append("[suppress_type]\n  name = %s\n" % e.type_name.split(":", 1)[1])
         elif names:
